@@ -13,6 +13,9 @@ from interp import Array, Cell, Ref, SliceRef, Struct, Tuple, Unsupported, VecV,
 
 
 def type_len(ty):
+    m = re.match(r"^W(\d+):(.*)$", ty)
+    if m:
+        return int(m.group(1)) * (1 + type_len(m.group(2)))
     if ty.startswith("S"):
         return 1 + type_len(ty[1:])
     if ty == "ILP4":
@@ -29,6 +32,11 @@ def type_len(ty):
 def make_value(ty, nums):
     """nums: list of Num (exactly type_len(ty))."""
     nums = list(nums)
+    m = re.match(r"^W(\d+):(.*)$", ty)
+    if m:
+        n, inner = int(m.group(1)), m.group(2)
+        w = 1 + type_len(inner)
+        return Struct("Piecewise", [VecV([make_value("S" + inner, nums[i * w:(i + 1) * w]) for i in range(n)])])
     if ty.startswith("S"):
         return Struct("Segment", [nums[0], make_value(ty[1:], nums[1:])])
     if ty == "ILP4":
@@ -66,6 +74,16 @@ METHOD = {"eval": "evaluate", "deriv": "derivative", "indef": "indefinite", "int
 
 def build_call(program, op, ty, nums):
     """-> (Function, args, post) where post(result) gives the value whose numbers are the outcome."""
+    if op in ("absdiff", "releq"):
+        # ty is "A|B": two (possibly differently sized) values of the same Rust type
+        ta, tb = ty.split("|") if "|" in ty else (ty, ty)
+        na, nb = type_len(ta), type_len(tb)
+        va, vb = make_value(ta, nums[:na]), make_value(tb, nums[na:na + nb])
+        args = [Ref(Cell(va)), Ref(Cell(vb))] + list(nums[na + nb:])
+        fn = program.find_method("abs_diff_eq" if op == "absdiff" else "relative_eq", args)
+        if fn is None:
+            raise Unsupported("no impl of approx relation for %s" % ty)
+        return fn, args, (lambda r: r)
     n = None if op in ("linear", "spline") else type_len(ty)
     if op in ("linear", "spline"):
         ks = [Struct("Knot", [nums[2 * i], nums[2 * i + 1]]) for i in range(len(nums) // 2)]
